@@ -40,8 +40,8 @@ impl<'a> TypedReprRef<'a> {
 //@@ SIG integer/fmt_npt/typedref_len.rs
 }
 impl PreparedMedium {
-// contract PROVED in unit int_fmt_digits
-//@@ SIG integer/fmt_npt/medium_new.rs
+// contract PROVED in unit int_fmt_medium_lead
+//@@ SIG integer/fmt_large/medium_new_lead.rs
 }
 impl PreparedLarge {
 //@@ FN integer/fmt_large/large_new.rs drop_asserts=0
